@@ -356,9 +356,13 @@ def rejudge(workdir, engine, case_ids, variants, tag):
 
 
 # variant sets under which a run is still a behaviour the Recommendation allows
-AMBIGUITY_SETS = [("A1prose",), ("A4doc",), ("A1prose", "A4doc")]
+import itertools as _it
+_AMB = ("A1prose", "A4doc", "A2raw")
+AMBIGUITY_SETS = [c for n in (1, 2, 3) for c in _it.combinations(_AMB, n)]
 # uSCXML's own conflict relation: accepted only as the root cause of a known finding
-STATIC_SETS = [("static",), ("static", "A1prose"), ("static", "A4doc"), ("static", "A1prose", "A4doc")]
+# uSCXML's own transition selection (one pass in post-fix order with the static conflict relation; spec variant
+# "uscxml", which always goes with the history-state domain "A2raw"): accepted only as the root cause of a known finding
+STATIC_SETS = [("uscxml", "A2raw") + c for n in (0, 1, 2) for c in _it.combinations(("A1prose", "A4doc"), n)]
 
 
 def classify_c01(result, engine, prop="C01"):
